@@ -663,7 +663,7 @@ fn call_sig_probe(pkg: &mut roto::Package<NoCtx>, fname: &str, p: &J) -> J {
     let r = p["r"].as_i64().unwrap_or(0);
     let got: Result<J, String> = match (kind, &ps[..], r) {
         ("const", _, _) => with_sig!(p["ty"].as_i64().unwrap(), S, sig_const::<S>(pkg, fname)),
-        ("fn", [0], r) => with_sig!(r, S, sig_ret::<S>(pkg, fname)),
+        ("fn" | "method", [0], r) => with_sig!(r, S, sig_ret::<S>(pkg, fname)),
         ("fn", [t], 0) => with_sig!(*t, S, sig_par::<S>(pkg, fname)),
         ("fn" | "method", [1, t], 0) => with_sig!(*t, S, sig_meth::<S>(pkg, fname)),
         ("match", [0], r) => with_sig!(r, S, sig_match::<S>(pkg, fname, ty_args(r).0 != 1)),
@@ -874,7 +874,8 @@ impl Rng {
 const BAD_NAMES: &[(&str, &str)] = &[
     ("accept", "keyword"), ("import", "keyword"), ("fn", "keyword"), ("std", "keyword"), ("while", "keyword"),
     ("true", "boollit"), ("1a", "digit"), ("9", "digit"), ("a.b", "dot"), ("", "empty"), ("a b", "space"),
-    ("a-b", "hyphen"), ("f'", "punct"), ("x+y", "punct"),
+    ("a-b", "hyphen"), ("f'", "punct"), ("x+y", "punct"), ("f1 ", "space"), ("g1\t", "space"), (" k1", "space"),
+    ("e1\n", "space"), ("h1 // c", "comment"), ("d1 //", "comment"),
 ];
 const PRIMS: &[&str] = &["String", "u32", "List"];
 const NONASCII: &[&str] = &["é", "東京", "ñandú", "Ωmega", "x_é"];
@@ -951,16 +952,38 @@ impl Gen<'_> {
     fn function(&mut self, scope: &[String], siblings: &mut Vec<String>, self_ty: Option<i64>) -> J {
         let (name, cls) = self.fresh(if self_ty.is_some() { "g" } else { "f" }, siblings);
         let mut ps = vec![];
-        if let Some(t) = self_ty {
-            if self.rng.chance(60) {
+        let mut r = 0;
+        if self.rng.chance(14) {
+            // a signature over a table type (u32 / bool / String / Option / List / Result / Verdict ..): three shapes
+            let ok: Vec<i64> = SIG_CODES
+                .iter()
+                .cloned()
+                .filter(|c| (self.defects && self.rng.chance(5)) || !c.to_string().contains('1') || self.avail.contains(&1))
+                .collect();
+            let t = *self.rng.pick(&ok);
+            match self.rng.below(3) {
+                0 => {
+                    ps.push(0);
+                    r = t;
+                }
+                1 if self_ty == Some(1) => {
+                    ps.push(1);
+                    ps.push(t);
+                }
+                _ => ps.push(t),
+            }
+        } else {
+            if let Some(t) = self_ty {
+                if self.rng.chance(60) {
+                    ps.push(t);
+                }
+            }
+            while ps.len() < 2 && self.rng.chance(50) {
+                let t = self.sig_ty();
                 ps.push(t);
             }
+            r = self.sig_ty();
         }
-        while ps.len() < 2 && self.rng.chance(50) {
-            let t = self.sig_ty();
-            ps.push(t);
-        }
-        let r = self.sig_ty();
         self.w.counter += 1;
         let tag = (self.w.counter % 9000) as i64 + 1;
         let mut it = item("fn", &name, &cls);
@@ -976,7 +999,7 @@ impl Gen<'_> {
 
     fn constant(&mut self, scope: &[String], siblings: &mut Vec<String>) -> J {
         let (name, cls) = self.fresh("K", siblings);
-        let ty = self.sig_ty();
+        let ty = if self.rng.chance(14) { *self.rng.pick(SIG_CODES) } else { self.sig_ty() };
         self.w.counter += 1;
         let tag = (self.w.counter % 9000) as i64 + 1;
         let mut it = item("const", &name, &cls);
@@ -1170,7 +1193,16 @@ fn gen_library(rng: &mut Rng, w: &mut World, defects: bool) -> (J, Vec<Known>, s
 
 fn probe_of(k: &Known, path: &[String]) -> Vec<J> {
     match k.kind {
-        "fn" => vec![json!({"kind": "fn", "path": path, "ps": k.ps, "r": k.r})],
+        "fn" => {
+            let mut v = vec![json!({"kind": "fn", "path": path, "ps": k.ps, "r": k.r})];
+            if k.ps == [0] && k.r >= 100 && [1, 3, 4].contains(&ty_args(k.r).0) {
+                v.push(json!({"kind": "match", "path": path, "ps": k.ps, "r": k.r}));
+            }
+            if k.r == 0 && k.ps.len() == 1 && k.ps[0] >= 100 && [1, 3, 4].contains(&ty_args(k.ps[0]).0) {
+                v.push(json!({"kind": "cons", "path": path, "ps": k.ps, "r": k.r}));
+            }
+            v
+        }
         "method" => {
             let mut v = vec![json!({"kind": "fn", "path": path, "ps": k.ps, "r": k.r})];
             if k.ps.first() == Some(&k.ty) {
@@ -1262,6 +1294,10 @@ fn record_case(case: &J, prog: &Progress) -> J {
                 break;
             }
             let kn = rng.pick(&w.known).clone();
+            let table = kn.r >= 5 || kn.ps.iter().any(|t| *t >= 5) || (kn.kind == "const" && kn.ty >= 5);
+            if table {
+                continue; // table types only come in fixed shapes
+            }
             if kn.kind == "fn" || kn.kind == "method" {
                 let mut q = kn.clone();
                 if rng.chance(50) {
@@ -1295,7 +1331,8 @@ fn record_case(case: &J, prog: &Progress) -> J {
                 "nocompile" | "sigmismatch" => -1,
                 _ => -9,
             };
-            let mut e = json!({"op": "probe", "q": q, "res": tag, "own": i >= nb});
+            let obs = if r["st"] == "ok" { r.get("obs").cloned().unwrap_or(json!([])) } else { json!([]) };
+            let mut e = json!({"op": "probe", "q": q, "res": tag, "obs": obs, "own": i >= nb});
             if tag < -1 {
                 e["detail"] = r.clone();
             }
